@@ -21,8 +21,8 @@ SPEC = {
             "variables and FB members; VAR_ACCESS; VAR_CONFIG values; tasks with SINGLE/INTERVAL and FB task "
             "bindings) x history of 12-16 steps over cycle(dt) / direct input write / restart(cold|warm) / "
             "restart+load / fault / access write / save / power cycle (new runtime + store [+ start-up restart] + "
-            "load); after every cold restart a freshly built twin receives the same continuation.  Cases 0-6 are "
-            "the recorded witnesses of the known findings (1 and 2: regression cases of fixed ones).  non-trivial = a restart or power cycle happened after "
+            "load); after every cold restart a freshly built twin receives the same continuation.  Cases 0-8 are "
+            "the recorded witnesses of the known findings (1, 2, 7, 8: regression cases).  non-trivial = a restart or power cycle happened after "
             "at least one executed cycle; distinct = by hash of the case's description + operation lines",
     "trusted_base": [
         "Lean 4.33.0 kernel; axioms per theorem listed under 'theorems'",
@@ -33,7 +33,8 @@ SPEC = {
         "Rust harness vharness c09 (generator, literal tables, dump through Runtime::storage()/io()/access_map()/"
         "tasks()/programs(), FileRetainStore on a temp file, oracle evaluation)",
         "the retain file codec is treated as the identity (C10 proves encode/decode round trip); the real "
-        "FileRetainStore is what the harness runs",
+        "FileRetainStore is what the harness runs; snapshot equality is structural in the model (the IEEE corner cases "
+        "of the derived PartialEq are C10's c10_manager_* theorems)",
     ],
     "assumptions": [
         "initialisers are constant expressions (the model stores the evaluated initial value)",
@@ -65,7 +66,9 @@ MANIFEST = {
                   "value) and on all three process images; c09_bindings_live_partial: bindings rooted in globals stay "
                   "connected; c09_power_cycle_globals_partial: save+load moves exactly the retained retainable GLOBALS; "
                   "c09_warm_restart_load_partial: restart(Warm)+load keeps the warm clause when the file was saved from the "
-                  "restarted state. The violated clauses are refuted on concrete witnesses inside the model "
+                  "restarted state; c09_save_ok_store / c09_save_sequence / c09_save_failure_changes_nothing: after any "
+                  "sequence of save calls with any pattern of failing writes, an Ok result means the medium holds the "
+                  "snapshot of that call (up to the manager's ==), and a failed write leaves manager and medium untouched. The violated clauses are refuted on concrete witnesses inside the model "
                   "(c09_counterexample_bindings, _config_init, _fb_member, _power_cycle, _warm_rollback; kernel-evaluated), "
                   "the two repaired ones are kept as agreeing regression witnesses (c09_witness_last_single_agrees, "
                   "c09_witness_images_agrees), and all seven projects are replayed on the real runtime in every run "
